@@ -103,8 +103,15 @@ def r12m(R):
                     r = A.repo.resolve_expr_static(d.module, t)
                     if isinstance(r, ClassInfo):
                         caught.add(r)
-    if not raised or not caught:
-        raise AnalysisError('get_lights / discover: raise or except not found')
+    if not raised:
+        R.ok(gl, 'get_lights raises nothing of its own')
+        return
+    if not caught:
+        R.fail(gl, 'LightSet.discover catches no exception class',
+               'LightSet.discover has no handler for what get_lights raises: '
+               'a network fault during discovery leaves discover() by an '
+               'exception instead of returning False')
+        return
     for n, r in raised:
         ok = isinstance(r, ClassInfo) and any(c in r.mro() for c in caught)
         R.check(gl, norm(n)[:60], ok,
